@@ -8,6 +8,7 @@
 
    Parameters (inputs of the model, never axioms):
      crypto  c_sign / c_kdf / c_mac / c_skey      Lib/SymC11.v
+     e_parse_dur  time.ParseDuration (applied to SEC_TOKEN_MAX_AGE ++ "s")
      e_json  encoding/json.Unmarshal into map[string]interface{} followed by the
              lookup of the six keys cedar reads (kid, exp, iat, sub, iss, scope)
      e_pool / e_named   contents of the pool key file / of keyDir/<kid>
@@ -141,8 +142,17 @@ Record env := {
   e_pool : option bytes;             (* pool key file contents; None: not configured / unreadable *)
   e_named : bytes -> option bytes;   (* keyDir/<kid> contents; None: dir not configured / unreadable *)
   e_max_age : Z;                     (* SecurityConfig.TokenMaxAge *)
+  e_env_max_age : bytes;             (* os.Getenv("SEC_TOKEN_MAX_AGE"); [] when unset *)
+  e_parse_dur : bytes -> option Z;   (* time.ParseDuration: nanoseconds, None on error *)
   e_trust : bytes                    (* SecurityConfig.TrustDomain *)
 }.
+
+Definition env_secs (e : env) : option Z :=
+  if is_nil (e_env_max_age e) then None
+  else match e_parse_dur e (e_env_max_age e ++ [x73]) with
+       | Some ns => Some (Z.quot ns 1000000000)
+       | None => None
+       end.
 
 (* decodeJWTSegment / the inline decode in validateTokenAndDeriveKeys *)
 Definition decode_seg (e : env) (seg : bytes) : option claims :=
@@ -182,18 +192,24 @@ Definition claim_time (v : jv) : option (option Z) :=
   | JNum z => Some (Some (f2i z))
   | _ => None
   end.
-Definition max_age_of (cfg : Z) : Z := if 0 <? cfg then cfg else DefaultTokenMaxAge.
-Definition timing_ok (now max_age_cfg : Z) (c : claims) : bool :=
+(* where the maximum age comes from: TokenMaxAge if positive, else
+   SEC_TOKEN_MAX_AGE read as seconds (ParseDuration of value ++ "s", then
+   int64(d.Seconds())), else the default; an unparsable value is ignored *)
+Definition max_age_of (cfg : Z) (env_secs : option Z) : Z :=
+  if 0 <? cfg then cfg else match env_secs with Some s => s | None => DefaultTokenMaxAge end.
+(* the age check is skipped when the resolved maximum is not positive *)
+Definition timing_ok (now ma : Z) (c : claims) : bool :=
   match claim_time (j_exp c), claim_time (j_iat c) with
   | Some eo, Some io =>
       (match eo with Some exp => now <? exp | None => true end) &&
       (match io with
-       | Some iat => let ma := max_age_of max_age_cfg in
-                     negb ((0 <? ma) && (ma <? wrap64 (now - iat)))
+       | Some iat => negb ((0 <? ma) && (ma <? wrap64 (now - iat)))
        | None => true
        end)
   | _, _ => false
   end.
+
+Definition resolved_max_age (e : env) : Z := max_age_of (e_max_age e) (env_secs e).
 
 (* ---------- validateTokenAndDeriveKeys ---------------------------------- *)
 Record vstate := { v_cid : bytes; v_sid : bytes; v_key : bytes; v_sig : bytes; v_K : bytes }.
@@ -231,7 +247,7 @@ Definition validate_token (e : env) (now : Z) (claimed token : bytes) : option v
                   match decode_seg e p1 with
                   | None => None
                   | Some c =>
-                      if negb (timing_ok now (e_max_age e) c) then None else
+                      if negb (timing_ok now (resolved_max_age e) c) then None else
                       match (match j_sub c with
                              | JAbsent => Some []            (* ClientID is reset: never the id claimed in step 1 *)
                              | JStr s => Some s
@@ -590,7 +606,7 @@ Definition verify_id_token (e : env) (now : Z) (tok : bytes) : option id_claims 
                   match decode_seg e p1 with
                   | None => None
                   | Some c =>
-                      if negb (timing_ok now (e_max_age e) c) then None else
+                      if negb (timing_ok now (resolved_max_age e) c) then None else
                       if is_nil (jstr (j_sub c)) then None else
                       Some {| ic_sub := jstr (j_sub c); ic_iss := jstr (j_iss c); ic_scope := jstr (j_scope c);
                               ic_exp := jint (j_exp c); ic_iat := jint (j_iat c) |}
